@@ -1126,7 +1126,9 @@ pub fn gen_c15(rng: &mut Rng, sh: &mut Shards, out: &str, thorough: bool) {
                         let n = ci * chunk.max(1) + k;
                         let shown: String = String::from_utf8_lossy(&src[..src.len().min(400)]).to_string();
                         let rendered = Rendered { source: String::new(), json: serde_json::json!({"ev":"program","n":n,"raw":true,"note":note,"source_head":shown,"source_len":src.len()}) };
-                        run_cli_bytes(bin, dir, n, &rendered, src, sin, *interp, 20000)
+                        // the size/depth families legitimately take seconds in the unoptimised binary (a 128-deep macro chain: 5 s on a busy
+                        // machine): their watchdog is generous; a hang is still a hang after 90 s
+                        run_cli_bytes(bin, dir, n, &rendered, src, sin, *interp, if note.starts_with("family") { 90000 } else { 20000 })
                     }).collect::<Vec<_>>()
                 }));
             }
